@@ -265,6 +265,16 @@ pub fn apply(db: &mut Database, ed: &Edit, at: i64, fresh: &mut u64) -> bool {
         Edit::RenameGroup(id) => {
             if let Some(g) = find_group_mut(&mut db.root, *id) {
                 g.name = format!("{}@{}", g.name.split('@').next().unwrap(), at);
+                // every other setting of the group changes with it, each to a value of its own (a swapped pair of fields shows)
+                g.notes = Some(format!("notes@{}", at));
+                g.icon_id = Some(at as usize % 60);
+                g.custom_icon_uuid = Some(uuid::Uuid::from_u128(0xc000_0000 + at as u128));
+                g.is_expanded = at % 2 == 0;
+                g.default_autotype_sequence = Some(format!("{{USERNAME}}{{TAB}}{}", at));
+                g.enable_autotype = Some(if at % 3 == 0 { "null".to_string() } else { format!("a{}", at % 2) });
+                g.enable_searching = Some(format!("s{}", at % 2 == 0));
+                g.last_top_visible_entry = Some(uuid::Uuid::from_u128(0xd000_0000 + at as u128));
+                g.custom_data.items.insert(format!("k{}", at % 3), keepass::db::CustomDataItem { value: Some(keepass::db::Value::Unprotected(format!("v{}", at))), last_modification_time: None });
                 g.times.set_last_modification(ts(at));
                 true
             } else {
